@@ -25,7 +25,7 @@ PARTIAL = ("Scalar theorems are about the shared register-file model coq/C01/Mod
 CORPUS = os.path.join(vlib.ROOT, "corpus/C08/corpus.jsonl")
 
 # hunt sites that are defects owned by other properties' known findings (referenced, not duplicated)
-REFERENCED = {"alloc-diffN": "F-C20-DYADIC-ALLOC", "set-order-before-alloc": "F-SETORD", "ABS(concrete)": "F-ABSC"}
+REFERENCED = {"alloc-diffN": "F-C20-DYADIC-ALLOC"}
 
 
 def all_known():
